@@ -5,9 +5,12 @@
 pub struct Location { pub line: u32, pub column: u32, pub absolute: u32 }
 #[derive(Clone, Copy)]
 pub struct Span { pub start: Location, pub end: Location }
-// token.rs Token projected: only the two layout tokens are told apart
-pub enum Token { OpenBlock, CloseBlock, Other(u32) }
+// token.rs Token projected: only the layout tokens are told apart
+pub enum Token { OpenBlock, CloseBlock, Semi, Other(u32) }
 pub struct SpannedToken { pub span: Span, pub value: Token }
+// derived Clone in the source (structural copy)
+impl Clone for Token { #[verifier::external_body] fn clone(&self) -> (r: Token) ensures r == *self { unimplemented!() } }
+impl Clone for SpannedToken { #[verifier::external_body] fn clone(&self) -> (r: SpannedToken) ensures r == *self { unimplemented!() } }
 pub mod pos {
     use super::*;
     // base::pos::spanned: `Spanned { span, value }`
